@@ -243,11 +243,11 @@ func TestSim(t *testing.T) {
 		vals := tape.Values()
 		min, nShrink := vals, 0
 		if !p.NoShrink && os.Getenv("VERIF_NOSHRINK") == "" {
-			min, nShrink = simkit.Shrink(t, p, tier, runSeed, vals, o.Failure, nil)
+			min, nShrink = simkit.Shrink(t, p, tier, runSeed, vals, o.Failure, nil, isKnown)
 		}
 		var ro simkit.Outcome
 		t.Run("minimised", func(st *testing.T) {
-			ro = simkit.Execute(st, p, tier, simkit.ReplayTape(runSeed, min), nil, false, nil)
+			ro = simkit.Execute(st, p, tier, simkit.ReplayTape(runSeed, min), isKnown, false, nil)
 		})
 		fail := o.Failure
 		rc := c
@@ -287,9 +287,23 @@ func doReplay(t *testing.T, p *simkit.Prop, path string) {
 		fmt.Fprintf(os.Stderr, "HARNESS: cannot read replay file: %v\n", err)
 		os.Exit(2)
 	}
+	// other known-finding classes stay soft (as in the original run); the class
+	// being replayed is always treated as a violation
+	known := loadKnown(os.Getenv("VERIF_KNOWN"), p.ID)
+	isKnown := func(f *simkit.Failure) bool {
+		if f.Oracle == rf.Oracle && f.Sig == rf.Signature {
+			return false
+		}
+		for _, e := range known {
+			if e.Oracle == f.Oracle && e.re.MatchString(f.Sig) {
+				return true
+			}
+		}
+		return false
+	}
 	var o simkit.Outcome
 	t.Run("replay", func(st *testing.T) {
-		o = simkit.Execute(st, p, rf.Tier, simkit.ReplayTape(rf.RunSeed, rf.Tape), nil, false, rf.Param)
+		o = simkit.Execute(st, p, rf.Tier, simkit.ReplayTape(rf.RunSeed, rf.Tape), isKnown, false, rf.Param)
 	})
 	res := map[string]interface{}{"expected_oracle": rf.Oracle, "expected_signature": rf.Signature, "expected_trace_hash": rf.TraceHash}
 	if o.HarnessErr != "" {
